@@ -566,6 +566,62 @@ def run(ctx):
     if cases:
         ctx.add_sample(dict(op='bbox', doc=meta[0][0][:300], group=meta[0][2]))
 
+    # ------------------------------------------------------------------ K path-boxes: polygonal paths, both branches of Path::new
+    pcases = []
+    pmeta = []
+
+    def walk_paths(n, name, d, path):
+        if n['t'] == 'path':
+            segs = n.get('segs', [])
+            if segs and all(sg[0] in 'MLZ' for sg in segs) and node_numbers_ok(n):
+                # trailing / repeated MoveTo points do not take part in tiny-skia's tight bounds
+                pts = []
+                for k, sg in enumerate(segs):
+                    if sg[0] == 'L' or (sg[0] == 'M' and k + 1 < len(segs) and segs[k + 1][0] == 'L'):
+                        pts.append((sg[1], sg[2]))
+                if len(pts) >= 2:
+                    pcases.append("(%s, [%s], %s, %s)" % (cts(n['abs_ts']), '; '.join("(%s, %s)" % (qstr(x), qstr(y)) for x, y in pts),
+                                                         cbox(n['bbox']), cbox(n['abs_bbox'])))
+                    pmeta.append((d, name, path, n))
+        for i, c in enumerate(n.get('children', [])):
+            walk_paths(c, name, d, "%s/%d" % (path, i))
+    for (d, name) in docs:
+        if name in trees:
+            walk_paths(trees[name]['root'], name, d, '')
+    if quick and len(pcases) > 900:
+        keep = sorted(rng.sample(list(range(len(pcases))), 900))
+        pcases = [pcases[i] for i in keep]
+        pmeta = [pmeta[i] for i in keep]
+    ctx.cov['path_box_cases'] = len(pcases)
+    for _d, _name, _path, _n in pmeta:
+        ctx.note_case("pathbox/%s%s" % (_name, _path))
+    if pcases:
+        PCH = 300
+
+        def pev(k):
+            body = ("Local Open Scope Q_scope.\n"
+                    "Fixpoint bad_from {A} (f : A -> bool) (l : list A) (i : N) : list N :=\n"
+                    "  match l with [] => [] | x :: r => if f x then bad_from f r (N.succ i) else i :: bad_from f r (N.succ i) end.\n"
+                    "Definition cases : list (ts * list pt * box * box) := [\n%s\n].\n"
+                    "Eval vm_compute in (bad_from (fun c => match c with (t, pts, o, a) => chk_path_boxes %s t pts o a end) cases 0%%N).\n"
+                    % (";\n".join(pcases[k * PCH:(k + 1) * PCH]), TOL))
+            return ctx.coq_eval('k_pathbox_%d' % k, body, IMPORTS, timeout=900)
+        with cf.ThreadPoolExecutor(max_workers=8) as ex:
+            pres = list(ex.map(pev, range((len(pcases) + PCH - 1) // PCH)))
+        nrep = 0
+        for k, (rc, out) in enumerate(pres):
+            bl = ctx.parse_N_list(out) if rc == 0 else None
+            if bl is None:
+                ctx.log("model evaluation failed:\n" + out[-1200:])
+                ctx.violation("path-boxes: the model no longer evaluates (Model/BBox.v)", dict(), found_input=False)
+                break
+            for bi in bl:
+                d, name, path, n = pmeta[k * PCH + bi]
+                if nrep < 3:
+                    nrep += 1
+                    ctx.violation("path-boxes: bounding_box / abs_bounding_box of the polygonal path %r (%s) of %s differ from the bounding box of its "
+                                  "(transformed) vertices" % (n['id'], path, name),
+                                  dict(op='bbox/path', doc=d, group_path=path, abs_ts=n['abs_ts'], segs=n['segs'][:12], bbox=n['bbox'], abs_bbox=n['abs_bbox']))
     # ------------------------------------------------------------------ S e2e-C12 painted pixels inside the reported boxes
     per = 12 if quick else 400
     payloads = ["-\t%s\t%d\t%d\t2" % (d, per, rng.below(1 << 30)) for d, _ in docs]
